@@ -20,6 +20,10 @@ func rawCases() []rawCase {
 	return []rawCase{
 		{"valid", "GET /c19/base HTTP/1.1\r\nHost: h\r\nConnection: close\r\n\r\n", false},
 		{"no-host", "GET /c19/base HTTP/1.1\r\n\r\n", false},
+		// no rule applies to these: whatever is wrong with their bodies, the answer is not a success
+		{"norule-plain", "GET /c19/nothing-here HTTP/1.1\r\nHost: h\r\nConnection: close\r\n\r\n", false},
+		{"norule-bad-chunk-size", "POST /c19/nothing-here HTTP/1.1\r\nHost: h\r\nTransfer-Encoding: chunked\r\nConnection: close\r\n\r\nZZ\r\nabc\r\n0\r\n\r\n", false},
+		{"norule-cl-and-te", "POST /c19/nothing-here HTTP/1.1\r\nHost: h\r\nContent-Length: 3\r\nTransfer-Encoding: chunked\r\nConnection: close\r\n\r\n0\r\n\r\n", false},
 		{"garbage-line", "THIS IS NOT HTTP\r\n\r\n", false},
 		{"binary", "\x00\x01\x02\xff\xfe\r\n\r\n", false},
 		{"tls-client-hello", "\x16\x03\x01\x02\x00\x01\x00\x01\xfc\x03\x03" + strings.Repeat("\x00", 64), true},
@@ -87,8 +91,18 @@ func rawCases() []rawCase {
 	}
 }
 
+// runRaw sends the raw requests to a service with the usual log level and to one logging at trace level
+// (what is written to the log - e.g. a dump of the request - must not change what a request results in).
 func (d *Driver) runRaw() error {
-	b, err := d.startBed()
+	if err := d.runRawAt(""); err != nil {
+		return err
+	}
+
+	return d.runRawAt("trace")
+}
+
+func (d *Driver) runRawAt(level string) error {
+	b, err := d.startBedAt(level)
 	if err != nil {
 		return err
 	}
@@ -133,6 +147,14 @@ func (d *Driver) runRaw() error {
 			id = "rawrequest/crafted/" + c.name
 		}
 
+		if level != "" {
+			if strings.Contains(c.name, "mutate") {
+				continue // the mutations of the valid request go to the first service only
+			}
+
+			id += "@" + level
+		}
+
 		if !d.want(id) {
 			continue
 		}
@@ -149,6 +171,8 @@ func (d *Driver) runRaw() error {
 		switch {
 		case c.name == "valid":
 			class = "valid"
+		case strings.HasPrefix(c.name, "norule-"):
+			class = "raw-norule"
 		case c.incomplete || (outcome == "waiting" && strings.Contains(c.name, "mutate")):
 			class = "raw-incomplete"
 		}
